@@ -671,11 +671,23 @@ func main() {
 			Perm    []int    `json:"perm"`
 			Hosts   []string `json:"hosts"`
 			Targets []target `json:"targets"`
+			Deny    []entry  `json:"deny"`
+			Direct  []entry  `json:"direct"`
 		}
 		if err := json.Unmarshal(data, &rp); err != nil {
 			panic(err)
 		}
-		if rp.Kind == "e2e" {
+		if rp.Kind == "route" {
+			c := routeCase{rp.Deny, rp.Direct, rp.Targets}
+			s, _, err := runRouteCase(*fwd, c)
+			if err != nil {
+				fmt.Println("replay:", err)
+				os.Exit(3)
+			}
+			m.Shards = []string{writeShard(*out, "vcases", 0, "vcase", "vcase_model_ok", "vcase_prop_ok", "(fun _ : vcase => false)", []string{s})}
+			writeJSONL(*out, "vcases.jsonl", []any{c})
+			m.E2ECases = 1
+		} else if rp.Kind == "e2e" {
 			c := e2eCase{rp.Entries, rp.Targets}
 			s, _, err := runE2ECase(*fwd, c)
 			if err != nil {
@@ -843,6 +855,32 @@ func main() {
 			m.Shards = append(m.Shards, writeShard(*out, "ucases", i, "ucase", "ucase_model_ok", "ucase_prop_ok", "ucase_unmodelled", uc[i*m.ShardSize:hi]))
 		}
 		writeJSONL(*out, "ucases.jsonl", uj)
+		// two lists at once: deny-domains and direct-domains, upstream proxy and a reachable origin
+		nRoute := 8
+		if *tier == "thorough" {
+			nRoute = 60
+		}
+		var vc []string
+		var vj []any
+		for i := 0; i < nRoute && m.E2EError == ""; i++ {
+			c := genRouteCase(r, i)
+			s, st, err := runRouteCase(*fwd, c)
+			if err != nil {
+				m.E2EError = err.Error()
+				break
+			}
+			for k, v := range st {
+				m.E2EProbes["route-"+k] += v
+			}
+			vc = append(vc, s)
+			vj = append(vj, c)
+		}
+		m.E2ECases += len(vc)
+		for i := 0; i*m.ShardSize < len(vc); i++ {
+			hi := min((i+1)*m.ShardSize, len(vc))
+			m.Shards = append(m.Shards, writeShard(*out, "vcases", i, "vcase", "vcase_model_ok", "vcase_prop_ok", "(fun _ : vcase => false)", vc[i*m.ShardSize:hi]))
+		}
+		writeJSONL(*out, "vcases.jsonl", vj)
 	}
 	writeMeta(*out, m)
 }
